@@ -17,7 +17,9 @@ from . import _simcases as S
 RULE = (
     "observe case = one physics input (device, drive incl. time-dependent ones, adaptive or fixed, screening on/off) run under 7-9 "
     "recording configurations: save_every in {1,2,3,7,N,N+1}, output file / temp dir, probe points present / absent, progress "
-    "interval 0 (tqdm) / 5 (logging); resume case = one fixed-step static-drive input split at every N1 in 1..N-1 (quick: 4 splits). "
+    "interval 0 (tqdm) / 5 (logging); resume case = one fixed-step static-drive input split at every N1 in 1..N-1 (quick: 4 splits); "
+    "resume variants whose drive changes BEFORE the first split and is constant afterwards (field ramped for 3.5 steps then held; currents I0 tanh(2t/dt)), "
+    "continued with the static value and with the same time-dependent object shifted by T1. "
     "non-trivial = >= 2 configurations (or >= 1 split) compared on >= 5 common frames; distinct = distinct physics spec"
 )
 REQUIRED_COUNTERS = ["configurations_compared", "common_frame_comparisons", "update_sequence_comparisons", "resume_splits", "resume_frame_comparisons"]
